@@ -27,3 +27,11 @@ Theorem C07_never_panics : forall idle max sig cmd rpm a,
   idle <= max -> next_state idle max sig cmd rpm a <> Panic.
 Proof. exact c07_never_panics. Qed.
 Print Assumptions C07_never_panics.
+
+(* the premise of abstracting from time in this property's model: the code it models waits, polls and gives up
+   exactly where the model says (primitive codes in Proofs/W_*.v); re-extracted from the source on every run *)
+Require Import GV.Gen.Consts GV.Proofs.W_governor.
+Theorem C07_time_abstraction : waits_governor = (@cons Z 7%Z (@cons Z 7%Z (@cons Z 7%Z (@nil Z)))).
+Proof. exact w_governor. Qed.
+Check C07_time_abstraction : waits_governor = (@cons Z 7%Z (@cons Z 7%Z (@cons Z 7%Z (@nil Z)))).
+Print Assumptions C07_time_abstraction.
